@@ -167,8 +167,8 @@ PROPS = {
                      "red-zone tools do not see intra-object overflows; memcheck cannot run AVX-512 code", ASAN_NOTE],
     ),
     "C12": dict(
-        runs=plan([dict(cfg="tsan", parts=12, timeout=1800), dict(cfg="plain", tag="ro", defs="-DVP_ROALLOC", parts=8)],
-                  [dict(cfg="tsan", parts=150, timeout=3600), dict(cfg="plain", tag="ro", defs="-DVP_ROALLOC", parts=100)]),
+        runs=plan([dict(cfg="tsan", parts=20, timeout=1800), dict(cfg="plain", tag="ro", defs="-DVP_ROALLOC", parts=16)],
+                  [dict(cfg="tsan", parts=300, timeout=7200), dict(cfg="plain", tag="ro", defs="-DVP_ROALLOC", parts=200)]),
         rule=("case = one concurrent workload in a short process (phase cold module+table API | warmed-up *_simple API, "
               "two dimensions, T threads, rounds, repetition): every thread runs a random permutation of all entry "
               "points of the phase on private data against the shared modules/tables; distinct by descriptor hash; "
